@@ -245,8 +245,10 @@ def _edit_loop(E, kind):
     own = ["C07"] if kind == "regenerate" else []
     wprop = "C07" if kind == "regenerate" else "C05"
     for part in ("new_kernel_trace", "score_and_weight", "backward_request", "carry_is_threaded", "scanned_output"):
+        # (C34: the per-iteration scores the loop records are the stacked sub-traces' scores - the scan's score, and its
+        # contribution to an enclosing trace's score, is their sum)
         E.prove(f"C12.{P}.iteration_i_edits_kernel_trace_i_with_its_subrequest_and_the_carry_of_i-1.{part}",
-                forall_i(E, n, lambda i: rec(i)[part]), also=own)
+                forall_i(E, n, lambda i: rec(i)[part]), also=own + (["C34"] if part == "score_and_weight" else []))
     loop_key_discipline(E, loop, k, key_at, lambda c: c[0], n, P, 0)
     c0 = loop.carry_at(z3.IntVal(0))
     E.prove(f"C12.{P}.initial_carry_is_the_new_init", E.And(T.d_primal(E.I.to_u(c0[2])) == new_init.t, E.eq(c0[0], k)))
@@ -276,7 +278,7 @@ def _edit_loop(E, kind):
                 parts=parts, old=old, inner=inner)
 
 
-@task("scan.edit_update", props=["C01", "C04", "C05", "C06", "C08", "C12"], functions=FUNCS)
+@task("scan.edit_update", props=["C01", "C04", "C05", "C06", "C08", "C12", "C34"], functions=FUNCS)
 def t_edit_update(E):
     z3, T = E.z3, E.I.T
     r = _edit_loop(E, "update")
@@ -288,7 +290,7 @@ def t_edit_update(E):
     E.refutable("scan.edit_update", E.eq(r["w"], 0.0))
 
 
-@task("scan.edit_regenerate", props=["C01", "C04", "C06", "C07", "C08", "C12"], functions=FUNCS)
+@task("scan.edit_regenerate", props=["C01", "C04", "C06", "C07", "C08", "C12", "C34"], functions=FUNCS)
 def t_edit_regenerate(E):
     z3, T = E.z3, E.I.T
     r = _edit_loop(E, "regenerate")
